@@ -42,7 +42,28 @@ fn ber_userdata(payload: &[u8]) -> String {
 pub fn run_case(toks: &[&str], em: &mut Emitter) {
     let t: Vec<String> = toks.iter().map(|s| s.to_string()).collect();
     em.alloc_limit = 1 << 20;
+    watch_begin(&t.join(" "));
     match t[0].as_str() {
+        "x224_stream" => {
+            // the server's bytes as they come off the wire (possibly a cut or over-long frame, then end of stream)
+            let offered: u32 = t[1].parse().unwrap(); let auth = t[2] == "1"; let stream = unhex(&t[3]);
+            let line = t.join(" ");
+            let obs = guarded(|| {
+                let pipe = Pipe::new(stream, vec![]);
+                let tp = tpkt::Client::new(Link::new(Stream::Raw(pipe.clone())));
+                let mut ntlm = Ntlm::new("d".to_string(), "u".to_string(), "p".to_string());
+                let r = if auth { x224::Client::connect(tp, offered, false, Some(&mut ntlm), false, false) } else { x224::Client::connect(tp, offered, false, None, false, false) };
+                let written = pipe.written();
+                let (frames, used) = refsrv::split_frames(&written);
+                let after = &written[used..];
+                let what = if frames.len() != 1 { "badreq" } else if after.is_empty() { "none" } else if after[0] == 0x16 { "tls" } else { "other" };
+                match r {
+                    Ok(_) => Obs::new(if after.is_empty() { "ok raw".to_string() } else { format!("ok {}", what) }).nt(true),
+                    Err(_) => Obs::new(format!("E {}", what)).nt(what == "tls"),
+                }
+            });
+            record(em, line, obs);
+        }
         "x224_conn" => {
             let offered: u32 = t[1].parse().unwrap(); let auth = t[2] == "1"; let payload = unhex(&t[3]);
             let line = t.join(" ");
@@ -162,6 +183,13 @@ pub fn generate_c02(thorough: bool, seed: u64, _part: (usize, usize), em: &mut E
     } } } }
     // absent / truncated / extended / random confirms
     let good = confirm(2, 0, 1);
+    // ... and the same at stream level: the TPKT frame itself cut short or announcing more than arrives
+    {
+        let framed = refsrv::tpkt_frame(&good);
+        for cut in 0..framed.len() { emit(em, format!("x224_stream 3 1 {}", hex(&framed[..cut]))); }
+        for extra in &[1usize, 2, 100, 60000] { let mut f = framed.clone(); let n = f.len() + extra; f[2] = (n >> 8) as u8; f[3] = n as u8; emit(em, format!("x224_stream 3 1 {}", hex(&f))); }
+        emit(em, format!("x224_stream 3 1 {}", hex(&framed)));
+    }
     for cut in 0..=good.len() { emit(em, format!("x224_conn 3 1 {}", hex(&good[..cut]))); }
     for _ in 0..(if thorough { 20000 } else { 1500 }) {
         let mut b = good.clone();
@@ -179,6 +207,12 @@ pub fn generate_c05(thorough: bool, seed: u64, part: (usize, usize), em: &mut Em
     let good = confirm(2, 0, 1);
     for off in 0..good.len() { for v in fault_vals { let mut b = good.clone(); b[off] = *v; emit(em, format!("x224_conn 3 {} {}", r.below(2), hex(&b))); } }
     for cut in 0..good.len() { emit(em, format!("x224_conn 3 1 {}", hex(&good[..cut]))); }
+    {
+        // the frame itself cut short / announcing more than arrives, then end of stream
+        let framed = refsrv::tpkt_frame(&good);
+        for cut in 0..framed.len() { emit(em, format!("x224_stream 3 1 {}", hex(&framed[..cut]))); }
+        for extra in &[1usize, 2, 100, 60000] { let mut f = framed.clone(); let n = f.len() + extra; f[2] = (n >> 8) as u8; f[3] = n as u8; emit(em, format!("x224_stream 3 1 {}", hex(&f))); }
+    }
     // --- GCC conference create response: every byte faulted, truncations, block-level attacks
     let gcc_good = refsrv::gcc_response(&p);
     for off in 0..gcc_good.len() { for v in fault_vals { let mut b = gcc_good.clone(); b[off] = *v; emit(em, format!("gcc_ccr {}", hex(&b))); } }
